@@ -68,6 +68,9 @@ pub struct Program {
     pub comp: Vec<u8>,
     pub dict: Vec<u8>,
     pub wild: bool,
+    /// execute every successful-looking deflateReset as deflateEnd + deflateInit2 with the current parameters
+    /// (used to tell whether zlib-ng's reset stream differs from zlib-ng's own fresh stream)
+    pub reset_as_reinit: bool,
 }
 
 fn wild_int(t: &mut Tape, lo: c_int, hi: c_int, wild: bool) -> c_int {
@@ -113,7 +116,14 @@ pub fn gen_program(t: &mut Tape, wild: bool, max_ops: usize) -> Program {
         ops.push(Op::DInit { level: lvl, method: 8, wbits: wb, mem: ccfg.mem_level, strategy: ccfg.strategy });
     }
     if t.chance(220) {
-        ops.push(Op::IInit { wbits: t.pick(&[ccfg.inflate_bits(), ccfg.inflate_bits(), 47, 15, -15, 31, 0]) });
+        // zlib-rs always keeps 32 KiB of history (C03/C13); zlib-ng's verdict on distances beyond a smaller
+        // window depends on the call schedule, so the lock-step comparison uses 32 KiB windows only
+        let m = match ccfg.wrap {
+            crate::refimpl::rgzh::Wrap::Raw => -15,
+            crate::refimpl::rgzh::Wrap::Zlib => 15,
+            _ => 31,
+        };
+        ops.push(Op::IInit { wbits: t.pick(&[m, m, m, 47, 15, -15, 31]) });
     }
     let sizes = [0usize, 1, 1, 2, 5, 6, 9, 16, 100, 258, 300, 1000, 5000, 70000];
     for _ in 0..n {
@@ -123,21 +133,26 @@ pub fn gen_program(t: &mut Tape, wild: bool, max_ops: usize) -> Program {
             0 => Op::DInit { level: wild_int(t, -1, 9, wild), method: if wild && t.chance(30) { t.pick(&[0, 7, 9, -1]) } else { 8 }, wbits: { let w = wild_int(t, 8, 15, wild); match t.below(3) { 0 => -w, 1 => w, _ => w.saturating_add(16) } }, mem: wild_int(t, 1, 9, wild), strategy: wild_int(t, 0, 4, wild) },
             1..=14 => Op::DDeflate { which, in_len: t.pick(&sizes), out_len: t.pick(&sizes), flush: if wild && t.chance(20) { t.pick(&[-1, 6, 7, 100, i32::MIN]) } else { t.pick(&[0, 0, 0, 1, 2, 3, 4, 5, 4]) } },
             15 | 16 => Op::DParams { which, level: wild_int(t, -1, 9, wild), strategy: wild_int(t, 0, 4, wild), out_len: t.pick(&sizes) },
-            17 => Op::DTune { which, a: wild_int(t, 1, 258, wild), b: wild_int(t, 1, 258, wild), c: wild_int(t, 1, 258, wild), d: wild_int(t, 1, 4096, wild) },
+            17 => {
+                // zlib does not validate tune values; zlib-rs stores them in 16 bits, zlib-ng in 32: values
+                // beyond 0..=65535 (meaningless for a 32 KiB window / 258 byte matches) are not compared
+                let tv = |t: &mut Tape| -> c_int { if t.chance(60) { t.u16() as c_int } else { t.pick(&[0, 1, 2, 3, 4, 8, 32, 128, 258, 259, 1024, 4096, 65535]) } };
+                Op::DTune { which, a: tv(t), b: tv(t), c: tv(t), d: tv(t) }
+            }
             18 | 19 => Op::DPrime { which, bits: if wild { wild_int(t, 0, 16, true) } else { t.below(17) as c_int }, value: t.u32() as c_int },
             20 => Op::DPending { which, null_pending: wild && t.chance(40), null_bits: wild && t.chance(40) },
             21 => Op::DBound { which, n: t.pick(&[0u64, 1, 100, 70000, u32::MAX as u64, u64::MAX >> 1]), null: wild && t.chance(30) },
             22 => Op::DSetDict { which, len: t.pick(&[0usize, 1, 30, 300, 40_000]).min(dict.len()), null: wild && t.chance(30) },
             23 => Op::DGetDict { which, null_buf: t.chance(60), null_len: wild && t.chance(40) },
-            24 => Op::DSetHeader { which, fields: if wild && t.chance(40) { None } else { Some(gen_gz_fields(t, false)) } },
+            24 => Op::DSetHeader { which, fields: if wild && t.chance(40) { None } else { let big = t.bool(); Some(gen_gz_fields(t, big)) } },
             25 | 26 => Op::DReset { which },
             27 => Op::DResetKeep { which },
             28 | 29 => Op::DCopy,
             30 => Op::DEnd { which },
-            31 => Op::IInit { wbits: if wild { t.pick(&[-16, -15, -9, -8, -7, 0, 7, 8, 15, 16, 23, 24, 31, 32, 39, 40, 47, 48, 63, 64, i32::MAX, i32::MIN]) } else { t.pick(&[-15, -9, 0, 9, 15, 25, 31, 47]) } },
+            31 => Op::IInit { wbits: if wild { t.pick(&[-16, -15, -15, -7, -1, 1, 7, 15, 15, 23, 31, 31, 39, 47, 47, 48, 63, 64, i32::MAX, i32::MIN]) } else { t.pick(&[-15, 15, 31, 47]) } },
             32..=45 => Op::IInflate { in_len: t.pick(&sizes), out_len: t.pick(&sizes), flush: if wild && t.chance(20) { t.pick(&[-1, 7, 100, i32::MIN]) } else { t.pick(&[0, 0, 0, 2, 4, 5, 6, 1, 3]) } },
             46 => Op::IReset,
-            47 => Op::IReset2 { wbits: if wild { t.pick(&[-16, -15, -8, -7, 0, 7, 8, 15, 16, 24, 31, 32, 40, 47, 48, i32::MIN]) } else { t.pick(&[-15, 0, 15, 31, 47]) } },
+            47 => Op::IReset2 { wbits: if wild { t.pick(&[-16, -15, -7, 7, 15, 23, 31, 39, 47, 48, i32::MIN]) } else { t.pick(&[-15, 15, 31, 47]) } },
             48 => Op::IResetKeep,
             49 => Op::ICopyBack,
             50 => Op::IEnd,
@@ -173,7 +188,7 @@ pub fn gen_program(t: &mut Tape, wild: bool, max_ops: usize) -> Program {
         };
         ops.push(op);
     }
-    Program { ops, data, comp, dict, wild }
+    Program { ops, data, comp, dict, wild, reset_as_reinit: false }
 }
 
 pub struct Exec {
@@ -188,6 +203,13 @@ pub fn run_program<A: Z>(p: &Program, ar: &Arenas) -> Exec {
     let mut i: Box<z_stream> = Box::new(zs());
     let mut dpos = [0usize; 2];
     // deflatePrime is documented for raw streams before the first deflate() call only
+    let mut d_params: [(c_int, c_int, c_int, c_int, c_int); 2] = [(0, 0, 0, 0, 0); 2];
+    let mut d_hdr: [Option<usize>; 2] = [None, None];
+    // inflatePrime likewise: raw inflate, before the first inflate() after init/reset
+    let mut i_raw = false;
+    let mut i_called = true;
+    // after Z_DATA_ERROR the contents of the history window are unspecified: ResetKeep is then run as Reset
+    let mut i_error = false;
     let mut d_raw = [false; 2];
     let mut d_called = [true; 2];
     let mut ipos = 0usize;
@@ -210,6 +232,8 @@ pub fn run_program<A: Z>(p: &Program, ar: &Arenas) -> Exec {
                 r.rc = unsafe { A::deflateInit2(&mut *d[0], *level, *method, *wbits, *mem, *strategy) } as i64;
                 d_raw[0] = *wbits < 0;
                 d_called[0] = false;
+                d_params[0] = (*level, *method, *wbits, *mem, *strategy);
+                d_hdr[0] = None;
             }
             Op::DDeflate { which, in_len, out_len, flush } => {
                 let w = *which;
@@ -243,6 +267,10 @@ pub fn run_program<A: Z>(p: &Program, ar: &Arenas) -> Exec {
                 s.avail_out = oc as u32;
                 r.rc = unsafe { A::deflateParams(s, *level, *strategy) } as i64;
                 d_called[w] = true;
+                if r.rc == 0 {
+                    d_params[w].0 = *level;
+                    d_params[w].4 = *strategy;
+                }
                 r.dout = (oc as u32).wrapping_sub(s.avail_out);
                 if r.dout as usize <= oc {
                     r.out = unsafe { core::slice::from_raw_parts(op_, r.dout as usize) }.to_vec();
@@ -297,11 +325,27 @@ pub fn run_program<A: Z>(p: &Program, ar: &Arenas) -> Exec {
                     let mut h = make_gz_header(f);
                     r.rc = unsafe { A::deflateSetHeader(&mut *d[*which], &mut *h.head) } as i64;
                     holds.push(h);
+                    if r.rc == 0 {
+                        d_hdr[*which] = Some(holds.len() - 1);
+                    }
                 }
                 None => {
                     r.rc = unsafe { A::deflateSetHeader(&mut *d[*which], core::ptr::null_mut()) } as i64;
                 }
             },
+            Op::DReset { which } if p.reset_as_reinit && !d[*which].state.is_null() => {
+                let w = *which;
+                unsafe { A::deflateEnd(&mut *d[w]) };
+                *d[w] = zs();
+                let (l, m, wb, me, sg) = d_params[w];
+                r.rc = unsafe { A::deflateInit2(&mut *d[w], l, m, wb, me, sg) } as i64;
+                if let Some(hi) = d_hdr[w] {
+                    unsafe { A::deflateSetHeader(&mut *d[w], &mut *holds[hi].head) };
+                }
+                dpos[w] = dpos[w];
+                d_out[w].clear();
+                d_called[w] = false;
+            }
             Op::DReset { which } => {
                 r.rc = unsafe { A::deflateReset(&mut *d[*which]) } as i64;
                 if r.rc == 0 {
@@ -329,6 +373,8 @@ pub fn run_program<A: Z>(p: &Program, ar: &Arenas) -> Exec {
                     d_out[1] = d_out[0].clone();
                     d_raw[1] = d_raw[0];
                     d_called[1] = d_called[0];
+                    d_params[1] = d_params[0];
+                    d_hdr[1] = d_hdr[0];
                 }
             }
             Op::DEnd { which } => {
@@ -342,6 +388,9 @@ pub fn run_program<A: Z>(p: &Program, ar: &Arenas) -> Exec {
                 ipos = 0;
                 i_out.clear();
                 r.rc = unsafe { A::inflateInit2(&mut *i, *wbits) } as i64;
+                i_raw = *wbits < 0;
+                i_called = false;
+                i_error = false;
             }
             Op::IInflate { in_len, out_len, flush } => {
                 let start = ipos.min(p.comp.len());
@@ -355,6 +404,10 @@ pub fn run_program<A: Z>(p: &Program, ar: &Arenas) -> Exec {
                 s.next_out = op_;
                 s.avail_out = oc as u32;
                 r.rc = unsafe { A::inflate(s, *flush) } as i64;
+                i_called = true;
+                if r.rc == Z_DATA_ERROR as i64 {
+                    i_error = true;
+                }
                 r.din = (ic as u32).wrapping_sub(s.avail_in);
                 r.dout = (oc as u32).wrapping_sub(s.avail_out);
                 if r.din as usize <= ic && r.dout as usize <= oc {
@@ -372,12 +425,27 @@ pub fn run_program<A: Z>(p: &Program, ar: &Arenas) -> Exec {
             }
             Op::IReset => {
                 r.rc = unsafe { A::inflateReset(&mut *i) } as i64;
+                if r.rc == 0 {
+                    i_called = false;
+                    i_error = false;
+                }
             }
             Op::IReset2 { wbits } => {
                 r.rc = unsafe { A::inflateReset2(&mut *i, *wbits) } as i64;
+                if r.rc == 0 {
+                    i_called = false;
+                    i_error = false;
+                    i_raw = *wbits < 0;
+                }
             }
             Op::IResetKeep => {
-                r.rc = unsafe { A::inflateResetKeep(&mut *i) } as i64;
+                r.rc = if i_error { unsafe { A::inflateReset(&mut *i) } } else { unsafe { A::inflateResetKeep(&mut *i) } } as i64;
+                if r.rc == 0 {
+                    i_error = false;
+                }
+                if r.rc == 0 {
+                    i_called = false;
+                }
             }
             Op::ICopyBack => {
                 let mut c = Box::new(zs());
@@ -408,7 +476,11 @@ pub fn run_program<A: Z>(p: &Program, ar: &Arenas) -> Exec {
                 r.rc = unsafe { A::inflateGetHeader(&mut *i, if *null { core::ptr::null_mut() } else { &mut *ihead }) } as i64;
             }
             Op::IPrime { bits, value } => {
-                r.rc = unsafe { A::inflatePrime(&mut *i, *bits, *value) } as i64;
+                if i.state.is_null() || (i_raw && !i_called) {
+                    r.rc = unsafe { A::inflatePrime(&mut *i, *bits, *value) } as i64;
+                } else {
+                    r.rc = -999; // outside the documented use of inflatePrime: not executed
+                }
             }
             Op::ISync { in_len } => {
                 let start = ipos.min(p.comp.len());
@@ -418,6 +490,7 @@ pub fn run_program<A: Z>(p: &Program, ar: &Arenas) -> Exec {
                 s.next_in = ip;
                 s.avail_in = ic as u32;
                 r.rc = unsafe { A::inflateSync(s) } as i64;
+                i_called = true;
                 r.din = (ic as u32).wrapping_sub(s.avail_in);
                 if r.din as usize <= ic {
                     ipos += r.din as usize;
@@ -439,8 +512,10 @@ pub fn run_program<A: Z>(p: &Program, ar: &Arenas) -> Exec {
             }
             Op::ICodesUsed => {
                 let v = unsafe { A::inflateCodesUsed(&mut *i) };
-                r.rc = 0;
-                r.vals.push(v as i64);
+                // the count of table entries is an implementation detail (not a status, not data movement):
+                // only "error or not" is compared
+                r.rc = if v == c_ulong::MAX { -1 } else { 0 };
+                r.info.push(v as i64);
             }
             Op::Compress2 { n, cap, level } => {
                 let ip = ar.inp.put_right(&p.data[..*n]);
